@@ -424,6 +424,9 @@ func NewCallTree() *CallTree {
 
 // add a new call to the current call tree
 func (c *CallTree) add(from common.Address, to *common.Address, data []byte, value, gas *uint256.Int) {
+	// data may point into the caller's live memory, which the program is
+	// free to overwrite after the call: record a copy
+	data = common.CopyBytes(data)
 	newCall := &Call{
 		From:  from,
 		To:    to,
